@@ -3,7 +3,7 @@
 //! "-u" unscheduled: shutdown after a burst (family runs), the forget path on real threads (tag 3: the harness
 //! waits for the stream's drop), and a global sink's AttachHandle (tag 4).
 use super::c01::queue_core::*;
-use super::c01::queue_family::{emit_stress, gen_plan, gen_stress, emit_scheduled, install_subscriber, replay_line, Focus, StressPlan};
+use super::c01::queue_family::{emit_stress, gen_plan, gen_shutdown_big, gen_stress, emit_scheduled, install_subscriber, replay_line, Focus, StressPlan};
 use super::c01::queue_sched::attach;
 use crate::common::{Ctx, Out, Rng};
 use crate::sx::{self, Sx};
@@ -21,7 +21,7 @@ fn emit_forget(out: &mut Out, case: &Sx) {
     let (cap, kind, threads, per, interval_us) =
         (case.arg(0).num() as usize, case.arg(1).num() as u8, case.arg(2).num() as u64, case.arg(3).num() as u64, case.arg(4).num() as u64);
     let log: Log = Arc::new(Mutex::new(vec![]));
-    let stream = RecStream { log: log.clone(), script: Script::default(), gate: None, flush_calls: 0 };
+    let stream = RecStream { log: log.clone(), script: Script::default(), gate: None, flush_calls: 0, before_call: None };
     let rec = LogRecorder { log: log.clone(), counters: Default::default(), queue_len: Default::default() };
     let b = BackgroundQueueBuilder::new().capacity(cap).flush_interval(Duration::from_micros(interval_us))
         .metrics_recorder_local::<dyn metrics::Recorder, _>(rec);
@@ -63,7 +63,7 @@ fn emit_attach(out: &mut Out, case: &Sx) {
     attach(false);
     let (cap, before, after) = (case.arg(0).num() as usize, case.arg(1).num() as u64, case.arg(2).num() as u64);
     let log: Log = Arc::new(Mutex::new(vec![]));
-    let stream = RecStream { log: log.clone(), script: Script::default(), gate: None, flush_calls: 0 };
+    let stream = RecStream { log: log.clone(), script: Script::default(), gate: None, flush_calls: 0, before_call: None };
     let rec = LogRecorder { log: log.clone(), counters: Default::default(), queue_len: Default::default() };
     let (q, j) = BackgroundQueueBuilder::new().capacity(cap).flush_interval(Duration::from_millis(20))
         .metrics_recorder_local::<dyn metrics::Recorder, _>(rec).build_boxed(stream);
@@ -130,6 +130,10 @@ pub fn run(ctx: &Ctx) {
             let plan = gen_plan(&mut rng, Focus::Shutdown, big);
             let bias = *rng.pick(&[1, 2, 4, 4, 12, 30]);
             emit_scheduled(&mut s, &plan, &mut rng, None, bias);
+        }
+        for _ in 0..(if ctx.tier_thorough { 60 } else { 8 }) {
+            let plan = gen_shutdown_big(&mut rng);
+            emit_scheduled(&mut s, &plan, &mut rng, None, 0);
         }
         for _ in 0..n_stress / 2 {
             let p: StressPlan = gen_stress(&mut rng, Focus::Shutdown, ctx.tier_thorough);
